@@ -683,6 +683,15 @@ class PendingAssign(PendingNode[Assign | AnnAssign]):
         else:
             assign_targets = self.node.targets
 
+        if len(assign_targets) > 1 or isinstance(
+            assign_targets[0], (Attribute, Subscript)
+        ):
+            # save the value to a tmp var: it is evaluated only once,
+            # and before the expressions inside the targets
+            tmp_value_name = Name(id=ol_name(OL_ASSIGN_TMP))
+            return_list.append(NamedExpr(target=tmp_value_name, value=assign_value))
+            assign_value = tmp_value_name
+
         for target in assign_targets:
             return_list.extend(self.assign_auto(target, assign_value))
 
